@@ -7,8 +7,8 @@
     getters only: of the client after the history, of a client freshly opened on the wallet file,
     and of the JSON file itself (parsed by the driver). The model must reproduce every outcome and
     all three observations, the driver's own bookkeeping of (address -> key, current password) must
-    be the model's specification state, and the driver's finding-class flag must be the model's
-    [history_in_finding_class]. *)
+    be the model's specification state, and the driver's flag "the caller kept his obligation on
+    every import" must be the model's [caller_ok] (in boolean form). *)
 From Coq Require Import List Bool String NArith ZArith Arith.
 Import ListNotations.
 From Ont Require Export Lib.CorrLib Model.Wallet.
@@ -33,6 +33,7 @@ Definition Nil : rs := RNil.
 Definition EEmpty : rs := EEmptyPwd.
 Definition ESig : rs := ESigScheme.
 Definition EDup : rs := EDupLabel.
+Definition EDupA : rs := EDupAddr.
 Definition ENF : rs := ENotFound.
 Definition EDelDef : rs := EDeleteDefault.
 Definition EDec : rs := EDecrypt.
@@ -41,7 +42,7 @@ Definition ENoDef : rs := ENoDefault.
 
 Definition res_eqb (a b : rs) : bool :=
   match a, b with
-  | ROk, ROk | RNil, RNil | EEmptyPwd, EEmptyPwd | ESigScheme, ESigScheme | EDupLabel, EDupLabel
+  | ROk, ROk | RNil, RNil | EEmptyPwd, EEmptyPwd | ESigScheme, ESigScheme | EDupLabel, EDupLabel | EDupAddr, EDupAddr
   | ENotFound, ENotFound | EDeleteDefault, EDeleteDefault | EDecrypt, EDecrypt | ESchemeName, ESchemeName
   | ENoDefault, ENoDefault => true
   | RKey k, RKey k' => N.eqb k k'
@@ -117,20 +118,32 @@ Definition view_of (w : iw) (n_index : nat) (pwds addrs labels olabels : list st
 Definition ghost_eqb (addrs : list string) (g g' : ghost N) : bool :=
   forallb (fun a => opt_eqb (fun x y => N.eqb (fst x) (fst y) && String.eqb (snd x) (snd y)) (mget a g) (mget a g')) addrs.
 
+(** [caller_ok] as a boolean on the executable instance *)
+Definition op_caller_okb (w : iw) (o : op N) : bool :=
+  match o with
+  | OImport _ _ _ _ _ _ _ _ _ prm pwd _ => scrypt_eqb prm (open_params _ w) && negb (String.eqb pwd "")
+  | _ => true
+  end.
+Fixpoint caller_okb (w : iw) (ops : list (op N)) : bool :=
+  match ops with
+  | [] => true
+  | o :: r => op_caller_okb w o && caller_okb (fst (step N iblob ienc idec w o)) r
+  end.
+
 Inductive case :=
 | CHist (prm : scrypt) (ops : list (op N)) (results : list rs)
-        (tracker : ghost N) (in_finding : bool)
+        (tracker : ghost N) (obliged : bool)
         (pwds addrs labels olabels : list string)
         (n_pre n_post : nat) (pre post : view)
         (file_prm : scrypt) (file : list meta).
 
 Definition case_ok (c : case) : bool :=
   match c with
-  | CHist prm ops results tracker in_finding pwds addrs labels olabels n_pre n_post pre post file_prm file =>
+  | CHist prm ops results tracker obliged pwds addrs labels olabels n_pre n_post pre post file_prm file =>
     let '(w, g, rs') := run N iblob ienc idec (init iblob prm) [] ops in
     list_eqb res_eqb rs' results &&
     ghost_eqb addrs g tracker && ghost_eqb addrs tracker g &&
-    Bool.eqb (history_in_finding_class N iblob ienc idec (init iblob prm) ops) in_finding &&
+    Bool.eqb (caller_okb (init iblob prm) ops) obliged &&
     view_eqb (view_of w n_pre pwds addrs labels olabels) pre &&
     view_eqb (view_of (reload iblob w) n_post pwds addrs labels olabels) post &&
     (* the JSON file is [save w] *)
